@@ -247,4 +247,12 @@ theorem struct_map_alloc_matches :
       = [.ok (.struct (.cons (.bool true) (.cons (.str []) .nil))),
          .ok (.struct (.cons (.bool false) (.cons (.str [120]) .nil)))] := by decide
 
+/-- `goTypeRegistry` is looked up and filled by `newGoType` only, and `NewGoType` takes
+    `goTypeMutex` before it calls it: the lookup of Reg.lean's `stepLocked` (no lock-free path in
+    front of the mutex, as in the contrast `stepFast`) -/
+theorem registry_lock_tie :
+    registryUsers = ["newGoType"] ∧
+    newGoTypeStmts = ["goTypeMutex.Lock()", "defer goTypeMutex.Unlock()", "return newGoType(typ)"] := by
+  decide
+
 end Risor.C08
